@@ -26,5 +26,5 @@ PROP = {'gen': [],
                   'correspondence run (exact equality of palettes, indices, octree dumps)',
                   'rasterize::RGBA::blend_over (alpha compositing) is an oracle: the harness passes effective pixels',
                   HARNESS],
- 'assumptions': ['requested palette size >= 1 (0 divides by zero in from_image)',
+ 'assumptions': ['requested palette size >= 1 (0 divides by zero in from_image); every size up to usize::MAX is covered since the fix 38c2d5c (saturating product)',
                  'usize accumulators do not overflow (needs > 2^56 pixels)']}
